@@ -510,7 +510,9 @@ fn part_bc(acc: &mut Acc, tier: Tier) {
                         break r;
                     }
                     if n > 10_000 {
-                        machinery_failure("C19: a write did not finish in 10000 steps");
+                        // (a write of the code under test that never completes although every file-system call it submits is served)
+                        a.fail("C19/write-never-completes", ci, format!("never-completes/{kind:?}/prior={prior}"), format!("{kind:?} did not finish within 10000 scheduler steps"), json!({}));
+                        return;
                     }
                 };
                 let snap: Vec<String> = snapshot(&st.root).keys().filter(|k| !k.contains(".upload")).cloned().collect();
